@@ -290,6 +290,42 @@ def ep():
 """
 
 
+_BLOBREF_SRC = """import typing, typelib
+Blob = bytes
+NBlob = typing.NewType("NBlob", bytearray)
+def ep(name, payload):
+    c = typelib.codec(name)
+    return dict(codec_encode=c.encode(payload), top_encode=typelib.encode(payload, t=name), codec_decode=c.decode(bytes(payload)), top_decode=typelib.decode(name, bytes(payload)))
+"""
+
+
+def run_blobref(res):
+    """(6) a bytes-like type named by a string reference: every entry point carries the bytes verbatim"""
+    from ..kernel import cold
+    from ..universe.prelude import dropmod, mkmod
+
+    cold.clear_all()
+    m = mkmod("tlg_c02_blobref", _BLOBREF_SRC)
+    try:
+        for name, cls in (("Blob", bytes), ("NBlob", bytearray)):
+            for p in (b"abc", b'"quoted"', b"[1]", b""):
+                cold.clear_all()
+                res.programs += 1
+                o = call(m.ep, name, cls(p))
+                res.evals += 4
+                res.hit("blobref:" + name)
+                res.outcomes.add(h64("blobref", name, p.hex(), "ok" if o.ok else o.excname))
+                if not o.ok:
+                    res.violation(f"C02/blobref/{name}/raises:{o.excname}", f"entry points with t={name!r} (a string reference to a bytes-like type) and payload {p!r} raise {o!r}", {"blobref": 1})
+                    continue
+                res.nontrivial.add(h64("blobref", name, p.hex()))
+                for k, v in o.val.items():
+                    if bytes(v) != p:
+                        res.violation(f"C02/blobref/{name}/{k}/content", f"{k} with t={name!r} gives {v!r}, expected the bytes {p!r} verbatim", {"blobref": 1})
+    finally:
+        dropmod("tlg_c02_blobref")
+
+
 def run_strref(res):
     """(5) the type named by a string reference, from two modules that bind the name to different classes (both orders):
     in each module all entry points agree and decode into THAT module's class"""
@@ -334,6 +370,7 @@ def run_unit(unit, tier, res):
         return
     if unit[0] == "strref":
         run_strref(res)
+        run_blobref(res)
         return
     s, a, b = unit
     for off, term in enumerate(E.unit_terms(unit)):
@@ -346,6 +383,9 @@ def replay(case, tier, res):
         return
     if "strref" in case:
         run_strref(res)
+        return
+    if "blobref" in case:
+        run_blobref(res)
         return
     term = E.term_set(case["set"])[case["i"]]
     run_term(case["set"], case["i"], term, tier, res, only_vi=case.get("vi"))
